@@ -258,4 +258,24 @@ PROPS = {
         real=["compiler", "vm.VM.ProcessLogLine", "metrics.Metric / datum", "Go time (fake clock)"],
         stub=[],
     ),
+    "C11": dict(
+        level="exploration",
+        flavour="race",
+        quick=dict(runs=1600, recheck=2),
+        thorough=dict(runs=60000, recheck=3),
+        rule=("each run = one program (scalar counter, dimensioned counter with limit 4, gauge set to the line number, histogram by tag, text metric, "
+              "a dimensioned counter whose label sets are deleted and expired) fed 10-49 lines by a feeder task while — drawn per run — the real GC "
+              "ticker loop runs under the fake clock (the controller advances time in the middle of line processing), a reloader task performs 1-3 "
+              "reloads, and up to six exporter tasks scrape repeatedly (Prometheus gather, varz, graphite, JSON handler, push with all three "
+              "formatters, store JSON dump); three runs in four with statement-level preemption and small quanta. The binary is built with -race and "
+              "the scheduler's hand-offs are hidden from the detector. Oracles: no race report in mtail code; counter totals equal the increments "
+              "the lines call for; exported monotone series stay within [0, final] and never decrease between successive exports; no panic, no "
+              "deadlock. Non-trivial: at least one exporter ran and GC or a reload was active; distinct = distinct (configuration, schedule signature)."),
+        assumptions=["race detection is go's -race (happens-before) with the simulator's own synchronisation made invisible through runtime.RaceDisable; reports whose innermost non-library frame on either side is harness or simulator code are ignored",
+                     "exports-reflect-existing-values is checked as a range/monotonicity property of monotone series, not by a full linearizability search (porcupine is not used)",
+                     "the sim mutexes re-create sync.RWMutex's race annotations (RaceAcquire/Release/ReleaseMerge), so lock ordering is what the detector would see with the real type"],
+        expect_probes=[],
+        real=["runtime.Runtime + vm.VM", "metrics.Store (Gc loop, Add, Range, MarshalJSON, WriteMetrics)", "exporter.Exporter: Collect/Gather, HandleVarz, HandleGraphite, HandleJSON, PushMetrics + formatters", "Go race detector"],
+        stub=["push connection"],
+    ),
 }
